@@ -2,7 +2,8 @@ SPECIFICATION GSpec
 CONSTANTS
   MaxN = 5
   MaxOps = 3
-  MaxAttempt = 5
+  MaxAttempt = 1
+  GenAttempts = 5
   Kinds = {"signing", "dkg"}
   Slots = {1}
   AllCalls = FALSE
